@@ -1,13 +1,11 @@
 #!/bin/sh
 # usage: tools/intake_seed.sh <seed-id> <Cnn> <worktree> <pkgdir> <run-pattern>
 # copies <worktree>/_seed into seeded/<seed-id>, validates it in the worktree (suite passes, demo fails with / passes
-# without the change), then runs the property's check against /repo with the patch applied and restores /repo
+# without the change), then runs the property's check against a scratch copy of /repo with the patch applied
 set -e
 id=$1; prop=$2; wt=$3; pkg=$4; pat=$5
 d=/verif/seeded/$id; mkdir -p $d
 cp $wt/_seed/patch.diff $wt/_seed/demo_test.go $d/; cp $wt/_seed/notes.md $d/ 2>/dev/null || true
 echo "== validate"; /verif/tools/validate_seed.sh $d $wt $pkg "$pat"
-echo "== check $prop with the change applied to /repo"
-cd /repo; git apply $d/patch.diff; cd /verif
-bin/govc check $prop --out /var/tmp/seedcheck 2>&1 | grep "VIOLATION\|govc:\|KNOWN\|UNDECIDED" | cut -c1-330 || true
-cd /repo; git checkout -- . ; git status --short | head -3
+echo "== check $prop with the change applied to a scratch copy of /repo"
+/verif/tools/trymutant.sh $d/patch.diff $prop | grep "VIOLATION\|govc:\|KNOWN\|UNDECIDED" | cut -c1-330 || true
